@@ -10,6 +10,7 @@ real compiler (T-obj)."""
 from __future__ import annotations
 
 import ast
+import hashlib
 import json
 import os
 import sys
@@ -27,18 +28,25 @@ RULE = (
     "start class (small, near +-2^63, random), stop placed for exact fit / overshoot / empty / wrong side, plus "
     "families where start+len*step lands exactly on 2^63-1, 2^63, -2^63, -2^63-1; single `__next__` steps on "
     "arbitrary states (incl. step=0); thorough adds the exhaustive grid start,stop in [-6,6], step in [-4,4]\\{0}. "
-    "non-trivial = at least one value is yielded or a bound is within 2^16 of +-2^63; distinct by request line"
+    "non-trivial = at least one value is yielded or a bound is within 2^16 of +-2^63; distinct by request line. "
+    "Compiled path: three Guppy loops `for i in range(..)` with RUN-TIME arguments (260 / 4000 generated calls incl. near +-2^63, "
+    "negative steps, empty, and the known overflow class), literal-argument programs incl. `array(i for i in range(n))` (12 / 68) and "
+    "functions mixing run-time and comptime range calls in random order (8 / 80); each run in the default and adversarial schedule"
 )
 ASSUMPTIONS = [
     "Guppy `int` is 64-bit two's complement: `+` wraps (HUGR iadd), `>=`/`<=` are signed (ige_s/ile_s); the Int64 shim and the Lean `wrap` implement exactly that",
-    "Guppy source executed under CPython with shims means what the compiled HUGR means (that claim is property C03)",
-    "the implicit coercion nat->int inserted by the checker in `_range_comptime` (`nat.__int__`, a NoopCompiler) reinterprets the 64 bits as signed",
+    "Guppy source executed under CPython with shims means what the compiled HUGR means (that claim is property C03); now also "
+    "observed directly: the same calls are run through the real lowering on the reference HUGR interpreter (T-hugr)",
+    "the implicit coercion nat->int inserted by the checker in `_range_comptime` (`nat.__int__`, a NoopCompiler) reinterprets the 64 bits "
+    "as signed (confirmed on the interpreter: the lowered `for i in range(2^63)` runs zero times; the production runtime is unobservable)",
+    "harness/hugr_interp.py gives the HUGR ops their documented semantics (iadd wraps, ige_s/ile_s signed, Option sums, arrays; validated "
+    "against CPython and the real 1.0.4 emulator, notes/INTERP.md); it is a sampling oracle over the real lowering, not a proof",
     "the Lean model Model/Range.lean is hand-written; agreement with iter.py is established by the same-input correspondence run here",
     "Spec/C18.lean (`pyLen`, `pyRange`) is compared with CPython's `range` on every generated triple",
 ]
 UNMODELLED = [
-    "execution of the compiled HUGR (no emulator for /repo output); the `for` loop desugaring that calls __iter__/__next__",
-    "SizedIter.__new__/unwrap_iter/__iter__ (NoopCompilers), array comprehension lowering",
+    "the production runtime (selene) executing /repo's HUGR; the `for` desugaring over __iter__/__next__, SizedIter NoopCompilers and "
+    "array-comprehension lowering are exercised on the reference interpreter on sampled programs (T-hugr), not modelled in Lean",
     "step = 0 (Python raises ValueError; Guppy silently iterates forever or not at all) is outside the property; only checked model-vs-code",
     "comptime n >= 2^64 (not a `nat`: rejected by the compiler)",
 ]
@@ -52,11 +60,15 @@ MANIFEST = {
     "nothing (`range_comptime_large_empty`). The specification list is characterised independently (`pyRange_mem_iff`, "
     "`pyRange_getElem`) and compared with CPython's range on every case. Tie: the real function bodies from /repo executed under CPython on Int64 shims vs "
     "the model vs CPython's range (quick ~2500 calls, thorough ~10^5 + exhaustive small grid); overload resolution and static "
-    "sizes read from the real type checker on probe programs.",
+    "sizes read from the real type checker on probe programs; second, independent tie on the compiled path: Guppy loops over range "
+    "(run-time and literal arguments, comptime array comprehensions, mixed call orders) lowered by the real compiler and run on the "
+    "reference HUGR interpreter in two schedules must yield the model's and CPython's sequence.",
     "level_note": "Partial: the 3-argument theorem needs the no-overflow hypothesis (D12 known finding; hypothesis proved necessary). "
     "Trusted: Lean kernel + propext/Classical.choice/Quot.sound; the Int64 shim / `wrap` as the meaning of Guppy int ops (HUGR op "
-    "semantics assumed); CPython execution of Guppy source standing for compiled execution; the correspondence is sampling.",
-    "technique": "Lean 4 proof over a hand-written model + T-exec differential correspondence with std/iter.py + T-obj probes",
+    "semantics as in harness/hugr_interp.py, validated against the 1.0.4 emulator); CPython execution of Guppy source standing for "
+    "compiled execution is now cross-checked by interpreting the real lowering; both correspondences are sampling.",
+    "technique": "Lean 4 proof over a hand-written model + T-exec differential correspondence with std/iter.py + T-obj probes + T-hugr "
+    "(real lowering run on the reference HUGR interpreter)",
     "design_ref": "DESIGN.md §5 C18",
     "ready": True,
 }
@@ -704,6 +716,278 @@ def _static_probe(ctx, real, ns):
             _broke(ctx, f"correspondence: model size annotation vs checker on range({n}) (checker={size} model={m})")
 
 
+
+# ----------------------------------------------------------------------------- compiled path (T-hugr)
+# Second, independent tie: Guppy driver programs looping over range(..) are lowered by /repo's REAL compiler
+# (feed.load / feed.lower) and the lowered HUGR is run on the reference interpreter harness/hugr_interp.py
+# (notes/INTERP.md), default and adversarial schedule.  The `result` trace must equal the Lean model's reply and
+# CPython's list(range(..)).  Covers what T-exec cannot see: the `for` desugaring over __iter__/__next__, the
+# lowering of Range's struct fields / Option results, iadd/ige_s/ile_s, overload resolution at the call site,
+# SizedIter + array comprehension for the comptime form, and the no-op nat->int coercion.
+
+_HUGR_RT = """
+@guppy
+def r1(b: int, cap: int) -> None:
+    n = 0
+    for i in range(b):
+        if n >= cap:
+            result("more", 0)
+            return
+        result("v", i)
+        n += 1
+    result("done", 0)
+
+@guppy
+def r2(a: int, b: int, cap: int) -> None:
+    n = 0
+    for i in range(a, b):
+        if n >= cap:
+            result("more", 0)
+            return
+        result("v", i)
+        n += 1
+    result("done", 0)
+
+@guppy
+def r3(a: int, b: int, c: int, cap: int) -> None:
+    n = 0
+    for i in range(a, b, c):
+        if n >= cap:
+            result("more", 0)
+            return
+        result("v", i)
+        n += 1
+    result("done", 0)
+"""
+
+
+def _lit(x):
+    return f"({x})" if x < 0 else str(x)
+
+
+def _hugr_literal_src(req, cap):
+    """straight-line program with LITERAL arguments (overload resolution happens at this call site)."""
+    k = req[0]
+    if k == "rc" and req[1] <= 64:
+        n = req[1]
+        return (f"@guppy\ndef main() -> None:\n    xs: array[int, {n}] = array(i for i in range({n}))\n"
+                f"    result(\"size\", len(xs))\n    for x in xs:\n        result(\"v\", x)\n    result(\"done\", 0)\n")
+    args = ", ".join(_lit(x) for x in req[1:])
+    return (f"@guppy\ndef main() -> None:\n    n = 0\n    for i in range({args}):\n        if n >= {cap}:\n"
+            f"            result(\"more\", 0)\n            return\n        result(\"v\", i)\n        n += 1\n    result(\"done\", 0)\n")
+
+
+def _hugr_reply(r):
+    vals, head, size = [], None, None
+    for tag, v in r.trace:
+        if tag == "v":
+            vals.append(str(v))
+        elif tag in ("done", "more"):
+            head = tag
+        elif tag == "size":
+            size = v
+    if r.status == "panic":
+        head = "panic:" + str(r.msg)[:60]
+    elif r.status != "value" or head is None:
+        head = f"{r.status}:{r.msg}"
+    s = " ".join([head] + vals)
+    return s if size is None else f"size={size} " + s
+
+
+def _strip_size(s):
+    return s.split(" ", 1)[1] if s.startswith("size=") else s
+
+
+
+def _mixed_program(rng):
+    """several range calls of different forms in ONE function, in random order: the comptime form must keep its static
+    size (array comprehension) whatever was called before it (overload resolution must not depend on history)."""
+    x, y, z = rng.randrange(-3, 6), rng.randrange(-3, 9), rng.choice([-3, -2, -1, 1, 2, 3])
+    segs = [rng.choice(["d1", "d2", "d3", "ct", "ctloop"]) for _ in range(rng.randrange(2, 5))]
+    if "ct" not in segs:
+        segs.insert(rng.randrange(0, len(segs) + 1), "ct")
+    if rng.random() < 0.6 and "d1" not in segs[: segs.index("ct")]:
+        segs.insert(0, "d1")
+    body, exp = [], []
+    for j, sg in enumerate(segs):
+        n = rng.randrange(0, 7)
+        if sg == "d1":
+            body += ["    for i in range(x):", f'        result("s{j}", i)']
+            exp += [(f"s{j}", v) for v in range(x)]
+        elif sg == "d2":
+            body += ["    for i in range(x, y):", f'        result("s{j}", i)']
+            exp += [(f"s{j}", v) for v in range(x, y)]
+        elif sg == "d3":
+            body += ["    for i in range(x, y, z):", f'        result("s{j}", i)']
+            exp += [(f"s{j}", v) for v in range(x, y, z)]
+        elif sg == "ct":
+            body += [f"    xs{j}: array[int, {n}] = array(i for i in range({n}))", f'    result("n{j}", len(xs{j}))',
+                     f"    for v in xs{j}:", f'        result("s{j}", v)']
+            exp += [(f"n{j}", n)] + [(f"s{j}", v) for v in range(n)]
+        else:
+            body += [f"    for i in range({n}):", f'        result("s{j}", i)']
+            exp += [(f"s{j}", v) for v in range(n)]
+    src = "@guppy\ndef main(x: int, y: int, z: int) -> None:\n" + "\n".join(body) + "\n"
+    return src, [x, y, z], exp, " ".join(segs) + f" x={x} y={y} z={z}"
+
+
+def _compiled_mixed(ctx, stats):
+    import feed
+    import hugr_interp as hi
+    from guppylang_internals.error import GuppyError
+
+    progs = [_mixed_program(ctx.rng) for _ in range(ctx.n(8, 80))]
+    rp = (ctx.replay_in or {}).get("replay", {}) if ctx.replay_in else {}
+    if isinstance(rp, dict) and rp.get("program") and "expected_trace" in rp:
+        progs.insert(0, (rp["program"], rp["args"], [tuple(e) for e in rp["expected_trace"]], rp.get("desc", "replay")))
+    for src, args, exp, desc in progs:
+        key = "input:hugr mixed " + hashlib.sha1(src.encode()).hexdigest()[:10] + " " + desc
+        try:
+            m = feed.load(src)
+            h = feed.lower(m.main).hugr
+            stats["programs"] += 1
+        except GuppyError as e:
+            ctx.count("hugr mixed " + desc, nontrivial=True, kind="hugr:mixed:rejected")
+            ctx.violation(
+                key,
+                f"a function mixing run-time and comptime range calls ({desc}) is rejected by the real compiler "
+                f"({type(getattr(e, 'error', e)).__name__}): a comptime range(n) must be statically sized to n wherever it stands",
+                {"hugr": True, "program": src, "args": args, "desc": desc, "error": type(getattr(e, "error", e)).__name__, "expected_trace": exp},
+            )
+            continue
+        except Exception as e:  # noqa: BLE001
+            _broke(ctx, f"T-hugr: mixed driver program crashed the compiler: {type(e).__name__}: {str(e)[:200]}")
+            continue
+        for order in ("default", "adversarial"):
+            try:
+                r = hi.run(h, "main", args, order=order)
+            except hi.Unsupported:
+                stats["unsupported"] += 1
+                continue
+            except hi.OutOfFuel:
+                stats["out_of_fuel"] += 1
+                continue
+            except Exception as e:  # noqa: BLE001
+                _broke(ctx, f"T-hugr: interpreter failed on mixed program ({desc}): {type(e).__name__}: {str(e)[:200]}")
+                continue
+            stats["runs"] += 1
+            got = [(t, v) for t, v in r.trace]
+            ctx.count("hugr mixed " + order + " " + desc, nontrivial=True, kind="hugr:mixed:" + r.status)
+            if r.status != "value" or got != exp:
+                ctx.violation(
+                    key,
+                    f"compiled function mixing range calls ({desc}; {order} schedule) does not yield Python's sequences: "
+                    f"status={r.status} trace={got[:12]} expected={exp[:12]}",
+                    {"hugr": True, "program": src, "args": args, "desc": desc, "order": order, "trace": got, "expected_trace": exp, "status": r.status,
+                     "msg": r.msg},
+                )
+
+
+def _compiled(ctx):
+    import feed
+    import hugr_interp as hi
+
+    stats = {"programs": 0, "runs": 0, "unsupported": 0, "out_of_fuel": 0, "lower_failed": 0, "known_class_runs": 0}
+    rng = ctx.rng
+
+    def lower(src, names):
+        try:
+            m = feed.load(src)
+            out = {n: feed.lower(getattr(m, n)).hugr for n in names}
+            stats["programs"] += len(names)
+            return out
+        except Exception as e:  # noqa: BLE001
+            stats["lower_failed"] += 1
+            _broke(ctx, f"T-hugr: driver program does not compile with the real compiler: {type(e).__name__}: {str(e)[:300]}")
+            return None
+
+    jobs = []  # (req, cap, hugr, func, args, src, has_size)
+    rt = lower(_HUGR_RT, ["r1", "r2", "r3"])
+    fixed = [CANON, ("r3", M63 - 3, M63 - 1, 2), ("r3", -M63 + 2, -M63, -1), ("r3", -M63 + 1, -M63, -3), ("r3", 7, -2, -3),
+             ("r3", 5, 5, 1), ("r3", M63 - 1, -M63, -(M63 - 1)), ("r2", M63 - 3, M63 - 1), ("r2", -M63, -M63 + 2), ("r1", 0), ("r1", -M63),
+             ("r1", 5)]
+    n_rt = ctx.n(260, 4000)
+    reqs = list(fixed)
+    while len(reqs) < n_rt:
+        q = _gen_case(rng)
+        if q[0] in ("r1", "r2", "r3") and not (q[0] == "r3" and q[3] == 0):
+            reqs.append(q)
+    rp = (ctx.replay_in or {}).get("replay", {}) if ctx.replay_in else {}
+    if isinstance(rp, dict) and rp.get("hugr") and "request" in rp:
+        reqs.insert(0, _tup(rp["request"]))
+    if rt is not None:
+        for q in reqs:
+            cap = _cap(q)
+            jobs.append((q, cap, rt[q[0]], q[0], list(q[1:]) + [cap], _HUGR_RT, False))
+    # literal programs: small/medium literals (|x| < 2^63 so the literal itself is accepted), comptime sizes, one big nat
+    lits = [("rc", 0), ("rc", 1), ("rc", 5), ("r1", 4), ("r2", -3, 2), ("r3", 10, -1, -4), ("r3", M63 - 7, M63 - 1, 3), ("rc", M63)]
+    for _ in range(ctx.n(4, 60)):
+        c = rng.randrange(4)
+        if c == 0:
+            lits.append(("rc", rng.randrange(0, 41)))
+        elif c == 1:
+            lits.append(("r1", rng.randrange(-3, 30)))
+        elif c == 2:
+            lits.append(("r2", rng.randrange(-20, 20), rng.randrange(-20, 20)))
+        else:
+            st = rng.choice([-7, -2, -1, 1, 2, 3, 9])
+            lits.append(("r3", rng.randrange(-30, 30), rng.randrange(-30, 30), st))
+    for q in lits:
+        cap = _cap(q)
+        src = _hugr_literal_src(q, cap)
+        h = lower(src, ["main"])
+        if h is not None:
+            jobs.append((q, cap, h["main"], "main", [], src, q[0] == "rc" and q[1] <= 64))
+    lines = [_line(q, cap) for q, cap, *_ in jobs]
+    model = ctx.driver(DRIVER, lines) if lines else []
+    for (q, cap, h, fn, args, src, has_size), line, m in zip(jobs, lines, model):
+        orc = _oracle(q, cap)
+        if not has_size:
+            m, orc = _strip_size(m), _strip_size(orc)
+        in_class = _overflow_class(q) or (q[0] == "rc" and M63 <= q[1] < M64)
+        per = {}
+        for order in ("default", "adversarial"):
+            try:
+                r = hi.run(h, fn, args, order=order)
+            except hi.Unsupported as e:
+                stats["unsupported"] += 1
+                ctx.bump("hugr:unsupported:" + str(e)[:40])
+                continue
+            except hi.OutOfFuel:
+                stats["out_of_fuel"] += 1
+                continue
+            except Exception as e:  # noqa: BLE001  (InterpError etc.: never skipped silently)
+                _broke(ctx, f"T-hugr: interpreter failed on the lowering of `{line}`: {type(e).__name__}: {str(e)[:200]}")
+                continue
+            stats["runs"] += 1
+            stats["known_class_runs"] += 1 if in_class else 0
+            got = _hugr_reply(r)
+            per[order] = got
+            ctx.count("hugr " + order + " " + ("lit " if fn == "main" else "rt ") + line, nontrivial=len(got.split(" ")) > 1 or in_class,
+                      kind=f"hugr:{q[0]}:{'lit' if fn == 'main' else 'rt'}:{'class' if in_class else 'plain'}:{got.split(' ')[0][:12]}")
+            if got != orc:
+                key = _finding_key(q) if in_class else "input:hugr " + ("lit " if fn == "main" else "rt ") + _key(q)[len("input:"):]
+                ctx.violation(
+                    key,
+                    f"compiled loop over range{tuple(q[1:])} [{q[0]}, {'literal' if fn == 'main' else 'run-time'} arguments; lowered by the real "
+                    f"compiler, run on the reference interpreter, {order} schedule] differs from Python's range: hugr=`{got}` "
+                    f"expected=`{orc}` (first {cap} steps)",
+                    {"request": list(q), "cap": cap, "line": line, "hugr": True, "program": src, "func": fn, "args": args, "order": order,
+                     "interpreter": got, "oracle": orc, "model": m, "overflow_class": _overflow_class(q)},
+                )
+            if got != m:
+                _broke(ctx, f"correspondence Model/Range.lean vs compiled HUGR ({order}) on `{line}` (hugr=`{got}` model=`{m}`)")
+        if len(per) == 2 and per["default"] != per["adversarial"]:
+            ctx.violation(
+                "order:hugr " + _key(q)[len("input:"):],
+                f"compiled loop over range{tuple(q[1:])} behaves differently under two legal schedules: default=`{per['default']}` "
+                f"adversarial=`{per['adversarial']}`",
+                {"request": list(q), "hugr": True, "program": src, "func": fn, "args": args, **per},
+            )
+    _compiled_mixed(ctx, stats)
+    ctx.extra["compiled_path"] = stats
+
+
 def tie(ctx):
     real = Real(ctx)
     reqs = _cases(ctx, ctx.n(2400, 100000), grid=not ctx.quick)
@@ -716,6 +1000,12 @@ def tie(ctx):
     ns = [0, 1, 2, 5, 64, M63 - 1, M63, M64 - 1] + [rng.choice([rng.randrange(0, 100), rng.randrange(0, M64)])
                                                      for _ in range(ctx.n(40, 600))]
     _static_probe(ctx, real, sorted(set(ns)))
+    try:
+        _compiled(ctx)
+    except vlib.Infra:
+        raise
+    except Exception as e:  # noqa: BLE001
+        _broke(ctx, f"T-hugr: compiled-path tie crashed: {type(e).__name__}: {str(e)[:300]}")
 
 
 def search(ctx, why):
